@@ -51,7 +51,9 @@ def validate_attributes(attributes, namespace, whitelist):
             )
 
 
-def convert_data_attributes(ns_attrs, attrs, namespaces) -> None:
+def convert_data_attributes(
+    ns_attrs, attrs, namespaces, ns_keys=None
+) -> None:
     d = 0
     for i, attr in list(enumerate(attrs)):
         name = attr['name']
@@ -70,6 +72,8 @@ def convert_data_attributes(ns_attrs, attrs, namespaces) -> None:
                 del ns_attrs[key]
             ns_attrs[namespaces[prefix], name] = attr['value']
             attrs.pop(i - d)
+            if ns_keys is not None:
+                ns_keys.pop(i - d)
             d += 1
 
 
@@ -181,9 +185,13 @@ class MacroProgram(ElementProgram):
         ns = start['ns_attrs']
         attrs = start['attrs']
 
+        # (namespace, name) of each attribute, by position
+        ns_keys = start.get('ns_keys', ns)
+
         if self.enable_data_attributes:
             attrs = list(attrs)
-            convert_data_attributes(ns, attrs, start['ns_map'])
+            ns_keys = list(ns_keys)
+            convert_data_attributes(ns, attrs, start['ns_map'], ns_keys)
 
         for (prefix, attr), encoded in tuple(ns.items()):
             if prefix == TAL or prefix == METAL:
@@ -304,7 +312,7 @@ class MacroProgram(ElementProgram):
             # Prepare attributes from TAL language
             prepared = tal.prepare_attributes(
                 attrs, TAL_ATTRIBUTES,
-                I18N_ATTRIBUTES, ns, self.DROP_NS
+                I18N_ATTRIBUTES, ns_keys, self.DROP_NS
             )
 
             # Create attribute nodes
